@@ -122,11 +122,29 @@ func genEvSession(ref core.CaseRef, r *rand.Rand) *evCase {
 				i++
 			}
 		}
+		// and a few rows that arrive much later than their neighbours, still within the tolerance: they land
+		// deep inside (or in front of) a session that has moved on by more than a timeout
+		for k := 0; k < 3 && c.MooMs >= c.SizeMs && len(c.Rows) > 4; k++ {
+			i := r.Intn(len(c.Rows) - 2)
+			j := i
+			for j+1 < len(c.Rows) && c.Rows[j+1].TS-c.Rows[i].TS <= c.MooMs {
+				j++
+			}
+			if j > i+1 {
+				to := i + 1 + r.Intn(j-i)
+				row := c.Rows[i]
+				copy(c.Rows[i:to], c.Rows[i+1:to+1])
+				c.Rows[to] = row
+			}
+		}
 		for i := range c.Rows {
 			c.Rows[i].ID = i + 1
 		}
 	}
 	c.Feed = pick(r, []string{"burst", "paced", "step"})
+	if c.MooMs > 0 && (c.Pattern == "jitter" || c.Pattern == "bridge") && r.Intn(3) == 0 {
+		c.Feed = "slow" // out-of-order rows within the tolerance arriving after pauses
+	}
 	c.Tail = max + c.MooMs + 10*c.SizeMs
 	if r.Intn(5) == 0 {
 		// two grouping columns whose values contain the characters a composite key might be joined or escaped
@@ -147,7 +165,7 @@ func runC10(ctx *core.Ctx) {
 	evCtx = ctx
 	ctx.SetRule("case = (timeout, MAXOUTOFORDERNESS, 1-4 keys with per-key gap sequences just below/at/above the timeout and ≫, arrival pattern inorder|jitter|late, feed mode) from PRNG(seed,index), closed by a sentinel of a foreign key; " +
 		"in-order cases are additionally fed at 3 speeds and compared. non-trivial = some key has ≥2 sessions expected by the gap rule; distinct by (SQL, rows, feed) hash")
-	ctx.Assume("single producer; block strategy", "maximality of sessions is not demanded (the statement does not)")
+	ctx.Assume("single producer; block strategy", "maximality of sessions is not demanded (the statement does not) beyond this: two reported sessions of one key never interleave in time")
 	n := ctx.N(90, 3000)
 	ctx.Cases("c10", n, 4*workers(), func(i int, r *rand.Rand) {
 		execC10(ctx, genEvSession(core.CaseRef{Stream: "c10", Index: i}, r))
@@ -277,6 +295,11 @@ func execC10(ctx *core.Ctx, c *evCase) {
 	}
 	prefMax[len(c.Rows)+1] = max64(m, c.Tail)
 	where := map[int]int{}
+	type span struct {
+		lo, hi int64
+		ids    []int
+	}
+	spans := map[string][]span{}
 	for wi, w := range wins {
 		if sk, ok := w.K.(string); ok && sk == "__sentinel__" {
 			viol("session.early_firing", fmt.Sprintf("the sentinel's own session [%d,%d) was delivered although no event passed its end", w.Start, w.End))
@@ -309,6 +332,7 @@ func execC10(ctx *core.Ctx, c *evCase) {
 				return
 			}
 		}
+		spans[g] = append(spans[g], span{tss[0], tss[len(tss)-1], w.IDs})
 		if w.Start != tss[0] {
 			viol("session.wrong_start", fmt.Sprintf("session of key %s reports window_start %d but its earliest event is at %d (ids %v)", g, w.Start, tss[0], w.IDs))
 			return
@@ -326,6 +350,21 @@ func execC10(ctx *core.Ctx, c *evCase) {
 			viol("session.early_firing", fmt.Sprintf("session [%d,%d) of key %s delivered when only %d Emit calls had started, whose largest timestamp %d is below window_end+MAXOUTOFORDERNESS=%d",
 				w.Start, w.End, g, st, prefMax[st], w.End+c.MooMs))
 			return
+		}
+	}
+	// A key's events are split at gaps (the title of the property): two reported sessions of one key never
+	// interleave.  A correct engine cannot produce that: an accepted event is not older than the watermark,
+	// and a session is only delivered once the watermark passed its end, so nothing accepted later can lie
+	// inside it.
+	for g, ss := range spans {
+		for i := range ss {
+			for j := i + 1; j < len(ss); j++ {
+				if ss[i].lo < ss[j].hi && ss[j].lo < ss[i].hi {
+					viol("session.split_without_gap", fmt.Sprintf("key %s: two reported sessions interleave - events %d..%d (ids %v) and events %d..%d (ids %v); a key's events are split only at gaps above the timeout (%d ms)",
+						g, ss[i].lo, ss[i].hi, ss[i].ids, ss[j].lo, ss[j].hi, ss[j].ids, c.SizeMs))
+					return
+				}
+			}
 		}
 	}
 	for i, r := range c.Rows {
